@@ -3,13 +3,12 @@ import facts
 import tast
 import mon
 import eff
+from protocol import AccMon, acc_rule, main_loop_of, SOLVERS, SOLOUT
 
 LEVEL = "other"
 
 ODE = "ivp::IVP::ode"
 JAC = "ivp::IVP::jac"
-SOLOUT = "solout::SolOut::solout"
-SOLVERS = [("rk4", "RK4"), ("rk23", "RK23"), ("dopri5", "DOPRI5"), ("dop853", "DOP853"), ("radau", "RADAU"), ("bdf", "BDF")]
 LIM = 64
 
 
@@ -147,85 +146,6 @@ def count_rule(rep, f, cg, rule, call_def, field, floor_calls):
     if total_calls < floor_calls:
         rep.inconc(rule, rule + ":floor", "only %d %s call sites found in the six solve fns (expected >= %d): anchor drift" % (total_calls, call_def, floor_calls))
     return total_calls
-
-
-class AccMon(mon.Monitor):
-    """state = (accepted increments since loop head [0..2], total increments [0..2], reached per-step callback)"""
-    init = ((0, 0, False),)
-
-    def __init__(self, fn, main):
-        super().__init__()
-        self.fn, self.main = fn, main
-        self.in_main = 0
-
-    def describe(self, ev):
-        n = ev[1]
-        return "%s @%s" % (tast.render(n) if n.get("k") == "AssignOp" else n.get("k"), n.get("sp"))
-
-    def step(self, st, ev):
-        kind, n = ev[0], ev[1]
-        a, t, r = st
-        if kind == "loop_head" and n is self.main:
-            return ((0, 0, False),)
-        if kind == "else" and is_solout_iflet(n):
-            return ()   # the protocol is about runs with a callback installed
-        if kind == "node":
-            k = n.get("k")
-            if k == "AssignOp" and n["l"].get("k") == "Field":
-                fd = n["l"].get("fdef") or ""
-                v = mon.is_lit_int(n["r"])
-                if fd == "methods::Steps::accepted":
-                    return ((min(2, a + (v if v is not None else 2)), t, r),)
-                if fd == "methods::Steps::total":
-                    return ((a, min(2, t + (v if v is not None else 2)), r),)
-            if k == "MethodCall" and n.get("def") == SOLOUT and self.inside_main(n):
-                if a != 1:
-                    self.violate("R-CNT-ACC:%s:callback:%d" % (self.fn, a),
-                                 "the per-step SolOut callback is reached with Steps::accepted incremented %d time(s) in this iteration (must be exactly 1); path: %s"
-                                 % (a, " -> ".join(self.cur_trail[-5:])), n, self.cur_trail)
-                return ((1, t, True),)
-        if kind == "latch" and n is self.main:
-            if not r and a != 0:
-                self.violate("R-CNT-ACC:%s:reject-cycle:%d" % (self.fn, a),
-                             "an iteration that does not report a step increments Steps::accepted %d time(s); path: %s" % (a, " -> ".join(self.cur_trail[-5:])), n, self.cur_trail)
-            if t < a:
-                self.violate("R-CNT-ACC:%s:total<accepted" % self.fn, "an iteration increments Steps::accepted but not Steps::total", n, self.cur_trail)
-            return ((0, 0, False),)
-        return (st,)
-
-    def inside_main(self, n):
-        return n in self._main_calls
-
-    def prepare(self):
-        self._main_calls = tast.calls(self.main, SOLOUT)
-
-
-def is_solout_iflet(n):
-    c = n.get("cond") or {}
-    return c.get("k") == "LetExpr" and "Option<&mut" in (c["init"].get("ty") or "") and (
-        "S>" in c["init"].get("ty", "") or "SolOut" in c["init"].get("ty", ""))
-
-
-def main_loop_of(body):
-    loops = tast.find(body["body"], lambda x: x.get("k") == "Loop" and tast.calls(x, SOLOUT))
-    return loops[0] if loops else None
-
-
-def acc_rule(rep, f):
-    for mod, ty in SOLVERS:
-        fn = "methods::%s::%s::solve" % (mod, ty)
-        body = f.body(fn)
-        main = main_loop_of(body)
-        if main is None:
-            rep.inconc("R-CNT-ACC", "R-CNT-ACC:%s" % fn, "no main loop with a SolOut callback")
-            continue
-        m = AccMon(fn, main)
-        m.prepare()
-        mon.Runner(m).run_fn(body)
-        for key, msg, node, trail in m.violations:
-            rep.violation("R-CNT-ACC", key, msg, node.get("sp") if isinstance(node, dict) else None)
-        if not m.violations:
-            rep.ok("R-CNT-ACC", "R-CNT-ACC:%s" % fn, "accepted += 1 exactly once before the per-step callback, never on other cycles")
 
 
 STAT_MAP = {"nfev": "methods::Evals::ode", "njev": "methods::Evals::jac", "nlu": "methods::Evals::lu",
